@@ -594,7 +594,7 @@ func pickPlan(r *core.Rand, k keyT, tap bool) sigPlan {
 	} else {
 		p.ht = byte(r.Pick(1, 1, 1, 2, 3, 0x81, 0x82, 0x83, 0, 4, 0x50, 0x84, 0xff))
 		if r.Chance(2, 5) {
-			p.variant = int(r.Pick(1, 2, 3, 4, 5, 6, 7, 8, 8, 9, 10))
+			p.variant = int(r.Pick(1, 2, 3, 4, 5, 6, 7, 8, 8, 9, 10, 11, 12, 13))
 		}
 	}
 	if r.Chance(1, 12) {
@@ -622,7 +622,13 @@ func pubVariant(r *core.Rand, k keyT, tap bool) []byte {
 		}
 		return k.xonly
 	}
-	switch r.Intn(14) {
+	switch r.Intn(16) {
+	case 14:
+		return offCurveKey(k.comp)
+	case 15:
+		x := append([]byte{}, k.uncomp...)
+		x[64] ^= 1 // uncompressed, y does not match x
+		return x
 	case 0:
 		return k.uncomp
 	case 1:
